@@ -61,6 +61,7 @@ def gen_cases(tier, seed):
         prog["n_iter"] = 2 * epoch + int(rng.integers(1, 4))
         # the non-compiled branch of solve (Python while loop) is taken when an observation-batch sharding is given
         prog["sharding"] = bool(prog["aux"] in ("obs", "both") and k % 3 == 0)
+        prog["inf_placeholder"] = bool(kind in ("ode", "statio2", "nonstatio1") and k % 5 == 2)
         cases.append(dict(prog=prog, cost=2.0 + (1.0 if prog["resumed"] else 0.0)))
     return cases
 
